@@ -39,6 +39,16 @@ Front(s) == SubSeq(s, 1, Len(s) - 1)
 After(p, tok) == IF tok.a = <<>> THEN <<>> ELSE SanitizeAttrs(p, tok.n, tok.a)
 
 ---------------------------------------------------------------------------
+\* The stack of remembered start tags holds the names of dropped elements (their end tags must be dropped
+\* too) and, marked with "+", kept elements that opened while a dropped (or marked) element of the same
+\* name was on top: their end tag only removes the marker.
+Marker(n) == "+" \o n
+TopIs(st, x) == st.stack # <<>> /\ Last(st.stack) = x
+\* the stack a kept (or hidden) start tag leaves
+PushKept(st, n) == IF TopIs(st, n) \/ TopIs(st, Marker(n)) THEN Append(st.stack, Marker(n)) ELSE st.stack
+\* an end tag whose marker is on top removes it and is then handled like any other end tag
+StackAtEnd(st, n) == IF TopIs(st, Marker(n)) THEN Front(st.stack) ELSE st.stack
+
 \* Branch names the path through the switch; `after` is the attribute list left by the pipeline.
 Branch(p, st, tok, after) ==
   CASE tok.t = "doctype" -> "Doctype"
@@ -52,7 +62,7 @@ Branch(p, st, tok, after) ==
          ELSE IF st.skip THEN "StartHidden" ELSE "StartKept"
     [] tok.t = "end" ->
          IF Blocked(p, tok.n) THEN "EndBlocked"
-         ELSE IF st.stack # <<>> /\ Last(st.stack) = tok.n THEN "EndPopsDropped"
+         ELSE IF TopIs(st, tok.n) THEN "EndPopsDropped"
          ELSE IF ~Explicit(p, tok.n) /\ PatsFor(p, tok.n) = {}
               THEN IF tok.n \in p.skip /\ ~Void(tok.n) THEN "EndUnknownSkip" ELSE "EndUnknown"
          ELSE IF st.skip THEN "EndHidden" ELSE "EndKept"
@@ -79,11 +89,13 @@ StepB(p, st, tok, b) ==
              [] tok.t = "end" -> IF st.mrst = Norm(tok.n) THEN "" ELSE st.mrst
              [] OTHER -> st.mrst
       s1 == [st EXCEPT !.mrst = m]
-  IN  CASE b = "StartUnknownSkip" -> [s1 EXCEPT !.skip = TRUE, !.cnt = @ + 1]
-        [] b = "StartBareDropped" -> [s1 EXCEPT !.stack = Append(@, tok.n)]
-        [] b = "EndPopsDropped"   -> [s1 EXCEPT !.stack = Front(@)]
-        [] b = "EndUnknownSkip"   -> [s1 EXCEPT !.cnt = @ - 1, !.skip = IF st.cnt - 1 = 0 THEN FALSE ELSE @]
-        [] OTHER -> s1
+      s2 == IF tok.t = "end" /\ b # "EndBlocked" THEN [s1 EXCEPT !.stack = StackAtEnd(st, tok.n)] ELSE s1
+  IN  CASE b = "StartUnknownSkip" -> [s2 EXCEPT !.skip = TRUE, !.cnt = @ + 1]
+        [] b = "StartBareDropped" -> [s2 EXCEPT !.stack = Append(@, tok.n)]
+        [] b \in {"StartKept", "StartHidden"} -> [s2 EXCEPT !.stack = PushKept(st, tok.n)]
+        [] b = "EndPopsDropped"   -> [s2 EXCEPT !.stack = Front(@)]
+        [] b = "EndUnknownSkip"   -> [s2 EXCEPT !.cnt = @ - 1, !.skip = IF st.cnt - 1 = 0 THEN FALSE ELSE @]
+        [] OTHER -> s2
 
 \* the tokens written during the step
 EmitB(p, tok, after, b) ==
@@ -137,5 +149,10 @@ I05(p, o) == ~p.unsafe => \A i \in DOMAIN o : ~(IsTag(o[i]) /\ Norm(o[i].n) \in 
 I02bare(p, o) == \A i \in DOMAIN o : (o[i].t \in {"start", "self"} /\ o[i].a = <<>>) => BareOK(p, o[i].n)
 
 \* structural invariants of the loop state
-StackInv(p, s) == \A i \in DOMAIN s.stack : Known(p, s.stack[i]) /\ ~BareOK(p, s.stack[i]) /\ ~Void(s.stack[i])
+\* every entry is the name of a known, never-bare, non-void element (a dropped start tag), or the marker
+\* of a kept element sitting directly on an entry or marker of the same name
+RECURSIVE IsMark(_, _)
+IsMark(stk, i) == i > 1 /\ (stk[i] = Marker(stk[i-1]) \/ (stk[i] = stk[i-1] /\ IsMark(stk, i - 1)))
+StackInv(p, s) == \A i \in DOMAIN s.stack :
+   IsMark(s.stack, i) \/ (Known(p, s.stack[i]) /\ ~BareOK(p, s.stack[i]) /\ ~Void(s.stack[i]))
 =============================================================================
